@@ -10,8 +10,10 @@ COMMON_ASSUMPTIONS = [
     'rounding, overflow, NaN/inf are outside the claim',
     'float constants in the code are snapped to the real they stand for (small-denominator rationals, '
     'rational multiples of powers of pi, ln2, ln10, sqrt2, 1/sqrt(pi); otherwise exact binary value)',
-    'every divisor met on an executed path is assumed non-zero and every log/sqrt/real-power argument positive '
-    '(definedness = the property\'s "inside the domain of smoothness")',
+    'in the equality queries every divisor met on an executed path is assumed non-zero and every log/sqrt/real-power '
+    'argument positive; separate definedness queries then show that no divisor / log / sqrt / power argument used by a '
+    'line of the implementation can vanish (be non-positive) where the stated domain and the specification side are '
+    'defined (sat models are replayed on the float build and reported when the real code yields nan/inf there)',
     'bounds (D, P, shapes, program/history length, matrix sizes) are the concrete values listed in coverage.bounds; '
     'nothing outside them is claimed',
     'numpy itself (object-dtype loops, indexing, broadcasting) and z3 are trusted',
@@ -121,6 +123,10 @@ def finish(pid, tier, seed, mod, units, results, wall, known, write=True):
                 'discharged_by_solver_unsat': tot('discharged'),
                 'closed_syntactically': tot('syntactic'),
                 'structural_facts_checked': tot('facts'),
+                'definedness_queries': sum(r.get('definedness_queries', 0) for r in results),
+                'definedness_discharged_unsat': sum(r.get('definedness_discharged', 0) for r in results),
+                'definedness_sat_but_benign_on_replay': sum(r.get('definedness_benign', 0) for r in results),
+                'definedness_unknown': sum(r.get('definedness_unknown', 0) for r in results),
                 'solver_queries': tot('queries'),
                 'solver_seconds': round(tot('solver_s'), 2),
                 'cross_solver': cross,
